@@ -233,3 +233,101 @@ Proof.
     rewrite ?andb_true_r, ?andb_false_r, ?orb_false_r. cbn [orb]. apply Pos.eqb_sym.
   - rewrite sub_pre. apply Forall2_refl_same.
 Qed.
+
+(* ------------------------------------------------------------------ build_leaf_list (attribute level) *)
+(* the entries of a converted argument aimed at leaf n are, entry by entry, the specification's sub-modifiers *)
+Lemma leaf_entries_same env sc n ms :
+  Forall2 same_entry (sub_mods n (flat_arg env (MArg sc [n] ms))) (flat_args env (to_symbol_mods (MArg sc [n] ms))).
+Proof.
+  unfold to_symbol_mods, flat_args. cbn [flat_arg m_mods m_scope].
+  induction ms as [|[e|l] ms IH]; [constructor| |]; cbn [flat_map]; rewrite sub_app, flat_map_app;
+    (apply Forall2_app; [|exact IH]).
+  - unfold sub_mods. cbn [flat_map app flat_arg]. rewrite Pos.eqb_refl. cbn [app].
+    constructor; [|constructor]. split; [reflexivity|]. intros a0. cbn [attr_pred path_eqb].
+    rewrite ?andb_true_r, ?andb_false_r, ?orb_false_r. cbn [orb]. apply Pos.eqb_sym.
+  - rewrite sub_pre. apply Forall2_refl_same.
+Qed.
+
+Lemma leaf_entries_same_list env n : forall l,
+  Forall (fun m => m_target m = [n]) l ->
+  Forall2 same_entry (sub_mods n (flat_args env l)) (flat_args env (flat_map to_symbol_mods l)).
+Proof.
+  induction 1 as [|m l Hm Hl IH]; [constructor|].
+  unfold flat_args in *. cbn [flat_map]. rewrite sub_app, flat_map_app.
+  apply Forall2_app; [|exact IH]. destruct m as [sc t ms]. cbn [m_target] in Hm. subst t.
+  apply leaf_entries_same.
+Qed.
+
+(* each source names an attribute at most once *)
+Definition uniq (l : list marg) : Prop := NoDup (map (fun m => head_id (m_target m)) l).
+
+Lemma last_for_absent a : forall l,
+  ~ In a (map (fun m => head_id (m_target m)) l) -> last_for a l = None.
+Proof.
+  induction l as [|m l IH]; intros H; [reflexivity|]. cbn [last_for map] in *.
+  rewrite IH by (intro; apply H; right; assumption).
+  destruct (Pos.eqb_spec (head_id (m_target m)) a) as [E|N]; [exfalso; apply H; left; exact E | reflexivity].
+Qed.
+
+Lemma last_for_first env a : forall l,
+  Forall simple_arg1 l -> uniq l ->
+  last_for a l = option_map entry_expr (attr_lookup a (flat_args env l)).
+Proof.
+  intros l Hs. rewrite (flat_args_simple env l Hs), attr_lookup_find.
+  induction Hs as [|m l [s [a' [e ->]]] Hl IH]; intros Hu; [reflexivity|].
+  inversion Hu as [|? ? Hn Hu']; subst. cbn [last_for map find entry_of attr_pred m_target m_mods head_id path_eqb] in *.
+  rewrite ?andb_true_r, ?andb_false_r, ?orb_false_r.
+  destruct (Pos.eqb_spec a' a) as [->|N].
+  - rewrite (last_for_absent a l Hn). reflexivity.
+  - rewrite (IH Hu'). destruct (find (attr_pred a) (map (entry_of env) l)); reflexivity.
+Qed.
+
+(* build_leaf_list, attribute level: the list build_syms puts on an inherited elementary leaf n is
+   decl ++ to_symbol_mods(clause args for n) ++ to_symbol_mods(incoming args for n) (tree.py:469-497 with the
+   environment of C08_extends_clause_env); applied by setattr in list order it gives, for every attribute,
+   what the specification looks up in  sub_mods n (incoming ++ clause entries) ++ declaration entries:
+   the incoming (outer) environment wins over the extends clause, the clause over the base's declaration. *)
+Theorem extends_leaf_attributes env n a decl clause incoming r :
+  Forall (fun m => m_target m = [n]) clause -> Forall (fun m => m_target m = [n]) incoming ->
+  Forall simple_arg1 decl -> Forall simple_arg1 (flat_map to_symbol_mods clause) ->
+  Forall simple_arg1 (flat_map to_symbol_mods incoming) ->
+  uniq decl -> uniq (flat_map to_symbol_mods clause) -> uniq (flat_map to_symbol_mods incoming) ->
+  apply_args (decl ++ flat_map to_symbol_mods clause ++ flat_map to_symbol_mods incoming) [] = Ok r ->
+  get_attr a r =
+  option_map entry_expr
+    (attr_lookup a (sub_mods n (flat_args env incoming ++ flat_args env clause) ++ flat_args env decl)).
+Proof.
+  intros Tc Ti Sd Sc Si Ud Uc Ui H.
+  rewrite (apply_args_last a _ [] r H). rewrite !last_for_app.
+  rewrite sub_app. rewrite !spec_outermost.
+  rewrite (last_for_first env a _ Si Ui), (last_for_first env a _ Sc Uc), (last_for_first env a _ Sd Ud).
+  rewrite !attr_lookup_find.
+  rewrite <- (find_same a _ _ (leaf_entries_same_list env n incoming Ti)).
+  rewrite <- (find_same a _ _ (leaf_entries_same_list env n clause Tc)).
+  destruct (find (attr_pred a) (sub_mods n (flat_args env incoming))); [reflexivity|].
+  destruct (find (attr_pred a) (sub_mods n (flat_args env clause))); [reflexivity|].
+  destruct (find (attr_pred a) (flat_args env decl)); reflexivity.
+Qed.
+
+(* the list itself: one step of build_syms on an elementary symbol (tree.py:449-497) — the declaration's own
+   arguments, then the converted arguments of the environment that name the symbol, in environment order *)
+Lemma build_syms_leaf_list root late rec ebi me myref s ss menv acc :
+  mem_id (head_id (s_type s)) BUILTIN = true -> s_name s <> iValueSym ->
+  build_syms root late rec ebi me myref (s :: ss) menv [] acc =
+  build_syms root late rec ebi me myref ss (filter (fun a => negb (targets (s_name s) a)) menv) []
+    (ISym (s_name s) (s_prefixes s) (s_dims s) (TyElem (s_type s))
+          (s_mods s ++ flat_map to_symbol_mods (filter (targets (s_name s)) menv)) :: acc).
+Proof.
+  intros E N. cbn [build_syms]. rewrite E.
+  assert (Pos.eqb (s_name s) iValueSym = false) as F by (destruct (Pos.eqb_spec (s_name s) iValueSym); [contradiction | reflexivity]).
+  rewrite F. cbn [andb filter flat_map].
+  rewrite (filter_ext (fun a => targets (s_name s) a || false) (targets (s_name s))) by (intros; apply orb_false_r).
+  rewrite (filter_ext (fun a => negb (targets (s_name s) a || false)) (fun a => negb (targets (s_name s) a)))
+    by (intros; rewrite orb_false_r; reflexivity).
+  rewrite app_nil_r. reflexivity.
+Qed.
+
+Lemma filter_targets_app n (l1 l2 : list marg) :
+  flat_map to_symbol_mods (filter (targets n) (l1 ++ l2)) =
+  flat_map to_symbol_mods (filter (targets n) l1) ++ flat_map to_symbol_mods (filter (targets n) l2).
+Proof. rewrite filter_app, flat_map_app. reflexivity. Qed.
